@@ -71,7 +71,9 @@ LimClauses(i) ==
         s    == SitOf(e)
         soft == L(e.soft[1], e.soft[2])
         hard == L(e.hard[1], e.hard[2])
-    IN  /\ ViolAt(e.out # "rejected", "TRACE", i, "go-line-rejected", Det(e))
+    \* a `go` that a GUI can send (negative numbers included: clocks that have run out) and that the engine does not accept is
+    \* never answered: inside the property's domain that is a violation, not a malformed trace
+    IN  /\ ViolAt(e.out # "rejected", IF e.rng = 0 \/ InDomain(s) THEN "C14" ELSE "C14-OOD", i, "go-line-not-accepted", Det(e))
         /\ IF e.rng = 0
            THEN ViolAt(e.out # "panic", "C14", i, "panic", Det(e))
            ELSE /\ IF InDomain(s)
